@@ -7,6 +7,7 @@ import (
 	"fmt"
 	"math"
 	"reflect"
+	"sort"
 	"strings"
 
 	"verif/internal/runner"
@@ -30,7 +31,13 @@ func (l *Log) add(name string, args ...interface{}) {
 		if i > 0 {
 			sb.WriteByte(',')
 		}
-		fmt.Fprintf(&sb, "%T:%v", a, a)
+		// sequences are logged without their Go element type (an array literal
+		// may reach a function as []interface{} or as a folded typed slice)
+		if a != nil && reflect.TypeOf(a).Kind() == reflect.Slice {
+			fmt.Fprintf(&sb, "seq:%s", stable(a))
+		} else {
+			fmt.Fprintf(&sb, "%T:%s", a, stable(a))
+		}
 	}
 	sb.WriteByte(')')
 	l.Calls = append(l.Calls, sb.String())
@@ -136,6 +143,7 @@ type Env struct {
 	Div    func(int, int) int // panics for a zero divisor
 	EqAny  func(a, b interface{}) interface{}
 	FnEnv  func(int) int // depends on the environment it belongs to (adds B)
+	StrEq  func(a, b fmt.Stringer) bool // parameters of a non-empty interface type
 
 	log *Log
 }
@@ -212,6 +220,7 @@ func New(l *Log) *Env {
 		return out
 	}
 	e.EqAny = func(a, b interface{}) interface{} { l.add("EqAny", a, b); return a == nil || b == nil }
+	e.StrEq = func(a, b fmt.Stringer) bool { l.add("StrEq", a, b); return a == b }
 	e.FnEnv = func(n int) int { l.add("FnEnv", n); return n + e.B }
 	e.Div = func(a, b int) int { l.add("Div", a, b); return a / b }
 	e.MkItem = func(n int) *Item {
@@ -416,4 +425,48 @@ func ResetLog(e *Env) {
 		e.log.Calls = nil
 		e.log.PanicAt = 0
 	}
+}
+
+// stable renders a logged argument without pointer addresses (an Item carries
+// a pointer to its call log, which differs between two equal environments).
+func stable(a interface{}) string {
+	switch x := a.(type) {
+	case Item:
+		return fmt.Sprintf("Item{%d %q %v %v}", x.ID, x.Name, x.Score, x.Flag)
+	case *Item:
+		if x == nil {
+			return "nil"
+		}
+		return fmt.Sprintf("&Item{%d %q %v %v}", x.ID, x.Name, x.Score, x.Flag)
+	case []Item:
+		parts := make([]string, len(x))
+		for i := range x {
+			parts[i] = stable(x[i])
+		}
+		return "[" + strings.Join(parts, " ") + "]"
+	case []*Item:
+		parts := make([]string, len(x))
+		for i := range x {
+			parts[i] = stable(x[i])
+		}
+		return "[" + strings.Join(parts, " ") + "]"
+	case []interface{}:
+		parts := make([]string, len(x))
+		for i := range x {
+			parts[i] = stable(x[i])
+		}
+		return "[" + strings.Join(parts, " ") + "]"
+	case map[string]interface{}:
+		keys := make([]string, 0, len(x))
+		for k := range x {
+			keys = append(keys, k)
+		}
+		sort.Strings(keys)
+		parts := make([]string, len(keys))
+		for i, k := range keys {
+			parts[i] = k + ":" + stable(x[k])
+		}
+		return "{" + strings.Join(parts, " ") + "}"
+	}
+	return fmt.Sprintf("%v", a)
 }
